@@ -240,6 +240,30 @@ class Boom(Exception):
     pass
 
 
+# what job bodies raise: a few standard families (a job may fail with anything that is an Exception)
+class BoomRuntime(RuntimeError):
+    pass
+
+
+class BoomLookup(KeyError):
+    pass
+
+
+class BoomOS(OSError):
+    pass
+
+
+class BoomTimeout(TimeoutError):
+    pass
+
+
+class BoomAssert(AssertionError):
+    pass
+
+
+BOOMS = [Boom, BoomRuntime, BoomLookup, BoomOS, BoomTimeout, BoomAssert, Boom, BoomRuntime]
+
+
 async def body(job):
     spec = job.spec
     emitj(job, "begin", job.name)
@@ -272,7 +296,8 @@ async def body(job):
         raise
     if spec.get("exc"):
         # (one in three with an empty message, like a bare `assert` or `raise TimeoutError()`)
-        job.exc_obj = Boom(job.name) if (spec.get("h", 0) + spec.get("k", 0)) % 3 else Boom()
+        cls = BOOMS[(spec.get("h", 0) * 3 + spec.get("k", 0) + len(job.name)) % len(BOOMS)]
+        job.exc_obj = cls(job.name) if (spec.get("h", 0) + spec.get("k", 0)) % 3 else cls()
         emitj(job, "raise", job.name)
         raise job.exc_obj
     job.ret_obj = ("result-of", job.name)
@@ -384,7 +409,7 @@ class VCoJob(Job):
         return await super().co_shutdown()
 
 
-def mksched(base):
+def mksched(base, plain=False):
     class V(base):
         def __init__(self, *a, name, spec):
             self.name = name
@@ -397,12 +422,6 @@ def mksched(base):
             if base is Scheduler:
                 kw.update(label=name, critical=spec["crit"], forever=spec["forever"])
             super().__init__(*a, **kw)
-
-        def __hash__(self):
-            return self.h
-
-        def __eq__(self, o):
-            return self is o
 
         async def co_run(self):
             old = CUR.get()
@@ -440,11 +459,18 @@ def mksched(base):
             finally:
                 CUR_PHASE.set(oldp)
                 CUR.set(old)
+    if not plain:
+        # a chosen hash, so that the iteration order of the sets holding schedulers is the scenario's
+        V.__hash__ = lambda self: self.h
+        V.__eq__ = lambda self, o: self is o
     return V
 
 
 VS = mksched(Scheduler)
 VP = mksched(PureScheduler)
+# the same without any hash / equality of our own: whatever the library defines (or inherits from object) applies
+VS_PLAIN = mksched(Scheduler, plain=True)
+VP_PLAIN = mksched(PureScheduler, plain=True)
 
 
 def exc_id(e):
@@ -475,6 +501,7 @@ def build(sc):
     objs = {}
 
     between = (sc.get("between") or {}) if sc.get("rerun") else {}
+    fill_later = []
     later_jobs = set(between.get("added_jobs", []))
     first = between.get("attrs", {})
 
@@ -484,9 +511,14 @@ def build(sc):
             o = job_class(node)(name, node)
         else:
             kids = [mk(c) for c in node["children"]]
-            cls = VP if node.get("pure") else VS
+            cls = (VP_PLAIN if node.get("pure") else VS_PLAIN) if sc.get("plain") else (VP if node.get("pure") else VS)
             # (jobs that join the scheduler only between the two runs are built, but not given to it yet)
-            o = cls(*[k for k in kids if k.name not in later_jobs], name=name, spec=node)
+            first_kids = [k for k in kids if k.name not in later_jobs]
+            if sc.get("late_fill"):
+                # "declare first, populate later": schedulers are created empty, wired, and only then filled
+                fill_later.append((name, first_kids))
+                first_kids = []
+            o = cls(*first_kids, name=name, spec=node)
         objs[name] = o
         # attributes as they are during the FIRST run (`sc["tree"]` describes the second, judged, run)
         for field, val in first.get(name, {}).items():
@@ -512,6 +544,9 @@ def build(sc):
         for c in node.get("children", []):
             link(c)
     link(sc["tree"])
+    for name, kids in fill_later:
+        if kids:
+            objs[name].update(kids)
     if late:
         # the graph is inspected, THEN edited (requirements added among jobs already in place, others removed), then
         # run: whatever the inspection cached (back-links, marks, ids) must not survive into the run.
